@@ -960,3 +960,60 @@ pub const POISONS: &[Poison] = &[
     Poison { id: "variant_payload_i64", poison: "#[typeshare]\n#[serde(tag = \"type\", content = \"content\")]\npub enum Pz { Ok(u32), Big(Vec<i64>) }\n", skipped: Some("#[typeshare]\n#[serde(tag = \"type\", content = \"content\")]\npub enum Pz { Ok(u32), #[typeshare(skip)] Big(Vec<i64>) }\n") },
     Poison { id: "anon_variant_field_u64", poison: "#[typeshare]\n#[serde(tag = \"type\", content = \"content\")]\npub enum Pz { Ok(u32), Shape { w: u32, h: u64 } }\n", skipped: Some("#[typeshare]\n#[serde(tag = \"type\", content = \"content\")]\npub enum Pz { Ok(u32), Shape { w: u32, #[serde(skip)] h: u64 } }\n") },
 ];
+
+/// An unsupported construct at a generated position (C08's quantifier: field, variant payload,
+/// generic argument, inside Vec/Option/HashMap/Box chains up to depth 5, alias target,
+/// serialized_as string), with the same construct under a skip marker where the position allows one.
+pub struct GenPoison {
+    pub id: String,
+    pub poison: String,
+    pub skipped: Option<String>,
+}
+
+pub fn gen_nested_poison(r: &mut Rng) -> GenPoison {
+    let bases = ["u64", "i64", "usize", "isize", "(u32, String)", "(u8,)"];
+    let base = *r.pick(&bases[..]);
+    let depth = r.below(6);
+    let mut ty = base.to_string();
+    let mut chain = vec![];
+    for _ in 0..depth {
+        let w = r.below(7);
+        ty = match w {
+            0 => format!("Vec<{ty}>"),
+            1 => format!("Option<{ty}>"),
+            2 => format!("HashMap<String, {ty}>"),
+            3 => format!("Box<{ty}>"),
+            4 => format!("Arc<{ty}>"),
+            5 => format!("[{ty}; 3]"),
+            _ => format!("Wrapper<{ty}>"),
+        };
+        chain.push(w);
+    }
+    let id = format!("gen/{}/{}", base.replace(' ', ""), chain.iter().map(|c| c.to_string()).collect::<String>());
+    let pos = r.below(7);
+    let (poison, skipped) = match pos {
+        0 => (
+            format!("#[typeshare]\npub struct Pz {{ pub ok: u32, pub big: {ty} }}\n"),
+            Some(format!("#[typeshare]\npub struct Pz {{ pub ok: u32, #[serde(skip)] pub big: {ty} }}\n")),
+        ),
+        1 => (
+            format!("#[typeshare]\n#[serde(tag = \"type\", content = \"content\")]\npub enum Pz {{ Ok(u32), Big({ty}) }}\n"),
+            Some(format!("#[typeshare]\n#[serde(tag = \"type\", content = \"content\")]\npub enum Pz {{ Ok(u32), #[serde(skip)] Big({ty}) }}\n")),
+        ),
+        2 => (
+            format!("#[typeshare]\n#[serde(tag = \"type\", content = \"content\")]\npub enum Pz {{ Ok(u32), Shape {{ w: u32, h: {ty} }} }}\n"),
+            Some(format!("#[typeshare]\n#[serde(tag = \"type\", content = \"content\")]\npub enum Pz {{ Ok(u32), Shape {{ w: u32, #[serde(skip)] h: {ty} }} }}\n")),
+        ),
+        3 => (format!("#[typeshare]\npub type Pz = {ty};\n"), None),
+        4 => (format!("#[typeshare]\npub struct Pz({ty});\n"), None),
+        5 => (
+            format!("#[typeshare]\npub struct Pz {{ pub ok: u32, #[typeshare(serialized_as = \"{ty}\")] pub big: String }}\n"),
+            Some(format!("#[typeshare]\npub struct Pz {{ pub ok: u32, #[serde(skip)] #[typeshare(serialized_as = \"{ty}\")] pub big: String }}\n")),
+        ),
+        _ => (
+            format!("#[typeshare]\npub struct PzPage<T> {{ pub items: Vec<T> }}\n#[typeshare]\npub struct Pz {{ pub ok: u32, pub page: PzPage<{ty}> }}\n"),
+            Some(format!("#[typeshare]\npub struct PzPage<T> {{ pub items: Vec<T> }}\n#[typeshare]\npub struct Pz {{ pub ok: u32, #[typeshare(skip)] pub page: PzPage<{ty}> }}\n")),
+        ),
+    };
+    GenPoison { id: format!("{id}@{pos}"), poison, skipped }
+}
